@@ -32,6 +32,7 @@ type bScen struct {
 	c      cfg
 	prefix []string
 	ev     string
+	ev2    string // "" = ev races with the fired restart timer; otherwise ev and ev2 are delivered by two threads (no timer expiry)
 	suffix []string
 }
 
@@ -43,7 +44,12 @@ type bData struct {
 	skip   bool     // event not enabled in the seed state (nothing executed)
 }
 
-func (b bScen) name() string { return "sched:" + b.c.String() }
+func (b bScen) name() string {
+	if b.ev2 != "" {
+		return "sched2:" + b.c.String()
+	}
+	return "sched:" + b.c.String()
+}
 
 func (b bScen) scenario() *sched.Scenario {
 	return &sched.Scenario{
@@ -65,20 +71,41 @@ func (b bScen) scenario() *sched.Scenario {
 			// threads start and evaluated after they have both finished, so that P
 			// contains nothing but the delivery itself: monitor reads would only add
 			// scheduling points that are equivalent to "timer first" / "timer last".
-			e := s.mkEvent(b.ev)
-			s.hist = append(s.hist, "||"+b.ev)
+			es := []event{s.mkEvent(b.ev)}
+			label := "||" + b.ev
+			if b.ev2 != "" {
+				es = append(es, s.mkEvent(b.ev2))
+				label += "||" + b.ev2
+			}
+			s.hist = append(s.hist, label)
 			s.histState = append(s.histState, s.state())
 			wasOpened := s.m.IsOpened()
-			s.begin(e)
+			for _, e := range es {
+				s.begin(e)
+			}
 			s.concurrent = true
-			x.Thread("P", func() {
-				x.Advance(restart)
-				s.deliver(e)
-				x.Obs("P:%s", b.ev)
-			})
+			s.refreshAssigned()
+			s.altAssigned, s.altValid = s.assigned, true
+			if b.ev2 == "" {
+				x.Thread("P", func() {
+					x.Advance(restart)
+					s.deliver(es[0])
+					x.Obs("P:%s", b.ev)
+				})
+			} else {
+				x.Thread("P", func() {
+					s.deliver(es[0])
+					x.Obs("P:%s", b.ev)
+				})
+				x.Thread("Q", func() {
+					s.deliver(es[1])
+					x.Obs("Q:%s", b.ev2)
+				})
+			}
 			x.IdleThread("epilogue", func() {
-				// monitors over everything P and the timer thread sent
-				s.end(e, wasOpened)
+				// monitors over everything the threads (and the timer thread) sent
+				s.end(es, wasOpened)
+				s.altValid = false
 				s.concurrent = false
 				s.crRun, s.trRun = 0, 0
 				d.coarse, d.armed, d.ops = s.coarse(), s.timerArmed(), s.Ops()
@@ -111,10 +138,14 @@ func (b bScen) scenario() *sched.Scenario {
 
 // seedsFor returns the seeds of one configuration in a deterministic order; in
 // the quick tier one representative per (state, counters, monitor flags) class.
-func seedsFor(c cfg, thorough bool) []seed {
+func seedsFor(c cfg, thorough bool, pairs bool) []seed {
 	registry.mu.Lock()
 	defer registry.mu.Unlock()
 	m := registry.seeds[c.String()]
+	if pairs {
+		m = registry.pairSeeds[c.String()]
+		thorough = true // already one per class
+	}
 	keys := make([]string, 0, len(m))
 	for k := range m {
 		keys = append(keys, k)
@@ -155,104 +186,135 @@ func bfsDepth(thorough bool) int {
 	return 8
 }
 
+// pairEvents: the events delivered by two receive/admin threads in the quick and
+// thorough tiers: every Configure-Request of the alphabet, the matching
+// Ack/Nak/Reject, Terminate-Request/-Ack, Close and Down.
+func pairEvents(c cfg) []string {
+	ev := append([]string{}, newSys(c).requestNames()...)
+	return append(ev, "RCA", "RCN", "RCJ", "RTR", "RTA", "Close", "Down")
+}
+
 func runSched(run *report.Run) {
-	bound := 2
-	budget := 40 * time.Second
+	bound, bound2 := 2, 1
+	budget := 60 * time.Second
 	if run.Thorough() {
-		bound = 3
-		budget = 8 * time.Minute
+		bound, bound2 = 3, 2
+		budget = 12 * time.Minute
 	}
 	start := time.Now()
 	for _, c := range configs(run.Thorough()) {
-		name := bScen{c: c}.name()
-		if !run.WantPart(name) {
-			continue
-		}
-		seeds := seedsFor(c, run.Thorough())
-		part := report.Part{Name: name, Engine: "B:sched-dfs", Exhaustive: true}
-		outcomes := map[string]bool{}
-		novel := map[string]bool{}
-		maxPoints, nScen, nNovel, nSuffix := 0, 0, 0, 0
+		// part 1: event versus fired restart timer, from every state with an armed timer
 		probe := newSys(c)
 		events := append(append([]string{}, adminOps...), probe.packetOpsAll()...)
-	seedLoop:
+		var scens []bScen
+		seeds := seedsFor(c, run.Thorough(), false)
 		for _, sd := range seeds {
 			for _, ev := range events {
-				if time.Since(start) > budget {
-					part.Exhaustive = false
-					part.Note = fmt.Sprintf("budget hit after %d scenarios", nScen)
-					break seedLoop
+				scens = append(scens, bScen{c: c, prefix: sd.path, ev: ev})
+			}
+		}
+		runPart(run, bScen{c: c}.name(), c, scens, events, bound, start, budget, fmt.Sprintf("seeds=%d events=%d", len(seeds), len(events)))
+		// part 2: two threads delivering events, from one state per (state, flags, timer) class
+		pe := pairEvents(c)
+		scens = nil
+		seeds = seedsFor(c, run.Thorough(), true)
+		np := 0
+		for _, sd := range seeds {
+			if !sd.haveCR {
+				continue // nothing outstanding: Ack/Nak/Reject variants are not defined, no request in flight to race with
+			}
+			for i, e1 := range pe {
+				for _, e2 := range pe[i:] {
+					scens = append(scens, bScen{c: c, prefix: sd.path, ev: e1, ev2: e2})
 				}
-				b := bScen{c: c, prefix: sd.path, ev: ev}
-				nScen++
-				// first pass: all interleavings of the concurrent phase
-				var novelHere []struct {
+			}
+			np++
+		}
+		runPart(run, bScen{c: c, ev2: "x"}.name(), c, scens, events, bound2, start, budget, fmt.Sprintf("seeds=%d event-pairs=%d", np, len(pe)*(len(pe)+1)/2))
+	}
+}
+
+func runPart(run *report.Run, name string, c cfg, scens []bScen, events []string, bound int, start time.Time, budget time.Duration, what string) {
+	if !run.WantPart(name) {
+		return
+	}
+	part := report.Part{Name: name, Engine: "B:sched-dfs", Exhaustive: true}
+	outcomes := map[string]bool{}
+	novel := map[string]bool{}
+	maxPoints, nScen, nNovel, nSuffix := 0, 0, 0, 0
+	for _, b := range scens {
+		if time.Since(start) > budget {
+			part.Exhaustive = false
+			part.Note = fmt.Sprintf("budget hit after %d of %d scenarios", nScen, len(scens))
+			break
+		}
+		nScen++
+		// first pass: all interleavings of the concurrent phase
+		var novelHere []struct {
+			choices []int
+			ops     []string
+		}
+		sc := b.scenario()
+		inner := sc.Check
+		sc.Check = func(x *sched.Exec) []sched.Viol {
+			vs := inner(x)
+			d := x.Data.(*bData)
+			if len(vs) == 0 && !d.skip && !novel[d.coarse] && !expandedBelow(c, d.coarse, bfsDepth(run.Thorough())) {
+				novel[d.coarse] = true
+				novelHere = append(novelHere, struct {
 					choices []int
 					ops     []string
-				}
-				sc := b.scenario()
-				inner := sc.Check
-				sc.Check = func(x *sched.Exec) []sched.Viol {
-					vs := inner(x)
-					d := x.Data.(*bData)
-					if len(vs) == 0 && !d.skip && !novel[d.coarse] && !expandedBelow(c, d.coarse, bfsDepth(run.Thorough())) {
-						novel[d.coarse] = true
-						novelHere = append(novelHere, struct {
-							choices []int
-							ops     []string
-						}{x.Choices(), d.ops})
+				}{x.Choices(), d.ops})
+			}
+			return vs
+		}
+		res := (&sched.Explorer{Bound: bound, Budget: time.Minute}).Explore(sc)
+		part.Executions += res.Executions
+		if res.MaxPoints > maxPoints {
+			maxPoints = res.MaxPoints
+		}
+		if !res.Exhaustive {
+			part.Exhaustive = false
+		}
+		for k := range res.Outcomes {
+			outcomes[k] = true
+		}
+		reportFailures(run, b, res.Failures)
+		// second pass: race-only end states get every event as a suffix
+		for _, nv := range novelHere {
+			nNovel++
+			var suffixes [][]string
+			for _, f := range nv.ops {
+				suffixes = append(suffixes, []string{f})
+				if run.Thorough() {
+					for _, g := range events {
+						suffixes = append(suffixes, []string{f, g})
 					}
-					return vs
+					suffixes = append(suffixes, []string{f, "TO"})
 				}
-				res := (&sched.Explorer{Bound: bound, Budget: time.Minute}).Explore(sc)
-				part.Executions += res.Executions
-				if res.MaxPoints > maxPoints {
-					maxPoints = res.MaxPoints
+			}
+			for _, sf := range suffixes {
+				bs := b
+				bs.suffix = sf
+				x := sched.RunOnce(bs.scenario(), nv.choices)
+				part.Executions++
+				nSuffix++
+				outcomes[strings.Join(x.Log, "|")] = true
+				vs := bs.scenario().Check(x)
+				if x.PanicText != "" {
+					vs = append(vs, sched.Viol{Kind: "panic", Site: "thread", Detail: x.PanicText})
 				}
-				if !res.Exhaustive {
-					part.Exhaustive = false
-				}
-				for k := range res.Outcomes {
-					outcomes[k] = true
-				}
-				reportFailures(run, b, res.Failures)
-				// second pass: race-only end states get every event as a suffix
-				for _, nv := range novelHere {
-					nNovel++
-					var suffixes [][]string
-					for _, f := range nv.ops {
-						suffixes = append(suffixes, []string{f})
-						if run.Thorough() {
-							for _, g := range events {
-								suffixes = append(suffixes, []string{f, g})
-							}
-							suffixes = append(suffixes, []string{f, "TO"})
-						}
-					}
-					for _, sf := range suffixes {
-						bs := b
-						bs.suffix = sf
-						x := sched.RunOnce(bs.scenario(), nv.choices)
-						part.Executions++
-						nSuffix++
-						outcomes[strings.Join(x.Log, "|")] = true
-						vs := bs.scenario().Check(x)
-						if x.PanicText != "" {
-							vs = append(vs, sched.Viol{Kind: "panic", Site: "thread", Detail: x.PanicText})
-						}
-						if len(vs) > 0 {
-							reportFailures(run, bs, []sched.Failure{{Viols: vs, Choices: nv.choices, Schedule: x.Schedule(), Log: x.Log}})
-						}
-					}
+				if len(vs) > 0 {
+					reportFailures(run, bs, []sched.Failure{{Viols: vs, Choices: nv.choices, Schedule: x.Schedule(), Log: x.Log}})
 				}
 			}
 		}
-		part.Bound = fmt.Sprintf("seeds=%d events=%d scenarios=%d preemptions<=%d maxpoints=%d race-only-states=%d suffix-runs=%d", len(seeds), len(events), nScen, bound, maxPoints, nNovel, nSuffix)
-		part.Outcomes = int64(len(outcomes))
-		part.States = int64(nNovel)
-		run.AddPart(part)
-		run.Sample(map[string]any{"part": name, "seeds": len(seeds), "scenarios": nScen, "executions": part.Executions, "race_only_states": nNovel})
 	}
+	part.Bound = fmt.Sprintf("%s scenarios=%d preemptions<=%d maxpoints=%d race-only-states=%d suffix-runs=%d", what, nScen, bound, maxPoints, nNovel, nSuffix)
+	part.Outcomes = int64(len(outcomes))
+	part.States = int64(nNovel)
+	run.AddPart(part)
+	run.Sample(map[string]any{"part": name, "what": what, "scenarios": nScen, "executions": part.Executions, "race_only_states": nNovel})
 }
 
 func reportFailures(run *report.Run, b bScen, fs []sched.Failure) {
@@ -265,13 +327,17 @@ func reportFailures(run *report.Run, b bScen, fs []sched.Failure) {
 		}
 		for _, v := range f.Viols {
 			tr := append([]string{}, b.prefix...)
-			tr = append(tr, "|| "+b.ev+" vs fired restart timer")
+			if b.ev2 != "" {
+				tr = append(tr, "|| "+b.ev+" vs "+b.ev2)
+			} else {
+				tr = append(tr, "|| "+b.ev+" vs fired restart timer")
+			}
 			tr = append(tr, f.Schedule...)
 			for _, sf := range b.suffix {
 				tr = append(tr, "then "+sf)
 			}
 			rv := report.Violation{Part: b.name(), Kind: v.Kind, Site: v.Site, Detail: v.Detail + " | observations: " + strings.Join(f.Log, " "), Config: b.c.String(), Trace: tr,
-				Extra: map[string]any{"choices": f.Choices, "prefix": b.prefix, "event": b.ev, "suffix": b.suffix}}
+				Extra: map[string]any{"choices": f.Choices, "prefix": b.prefix, "event": b.ev, "event2": b.ev2, "suffix": b.suffix}}
 			if v.Kind == "panic" {
 				rv.Site = b.ev
 			}
@@ -303,6 +369,7 @@ func strs(v any) []string {
 func replaySched(run *report.Run, v report.Violation) int {
 	for _, c := range configs(true) {
 		b := bScen{c: c}
+		b.ev2, _ = v.Extra["event2"].(string)
 		if b.name() != v.Part {
 			continue
 		}
